@@ -219,7 +219,12 @@ Fixpoint strictly_ascN (l : list N) : bool :=
    carried by F_home+1 DISTINCT nodes *)
 Definition attr_voters (attr : list (node * list (chain * root))) (ch : chain) (r : root) : list node :=
   dedupN (map fst (filter (fun a => existsb (vote_pair_eqb (ch, r)) (snd a)) attr)).
-Definition attr_ok (cfg : config) (attr : list (node * list (chain * root))) : bool :=
+(* [The carriers were counted without looking at the script: attributed observations of nodes that never sent a
+   correctly signed observation of that root for the requested lane (C06_obs_threshold: "each ... whose response in
+   the schedule is correctly signed, names this destination and configuration, and carries r for exactly the
+   requested onramp and interval") were accepted — witness attr_ok_before_unsound in Proofs/JudgeSoundC06P.v.  Now
+   only carriers that are voters of that root in the script count towards F_home+1.] *)
+Definition attr_ok (cfg : config) (its : list item) (attr : list (node * list (chain * root))) : bool :=
   match attr with
   | [] => true
   | _ =>
@@ -231,7 +236,9 @@ Definition attr_ok (cfg : config) (attr : list (node * list (chain * root))) : b
       | inl (Ok us) =>
           forallb (fun u =>
             existsb (fun a => existsb (fun v => N.eqb (fst v) (u_chain u) &&
-                                               gte_f_plus_one (u_F u) (zlen (attr_voters attr (u_chain u) (snd v))))
+                                               gte_f_plus_one (u_F u)
+                                                 (zlen (filter (fun n => memN n (voters cfg u (snd v) its))
+                                                               (attr_voters attr (u_chain u) (snd v)))))
                                       (snd a)) attr) us
       | _ => false
       end
@@ -239,16 +246,19 @@ Definition attr_ok (cfg : config) (attr : list (node * list (chain * root))) : b
 
 Definition c06_ok1 (i : c06_in) (o : out1) : bool :=
   let cfg := i_cfg i in
-  negb (N.eqb (o_kind o) 9) && negb (N.eqb (o_kind o) 10) && attr_ok cfg (o_attr o) &&
+  negb (N.eqb (o_kind o) 9) && negb (N.eqb (o_kind o) 10) && attr_ok cfg (i_items i) (o_attr o) &&
   (if N.eqb (o_kind o) 0 then
      match prepare cfg with
      | inl (Ok us) =>
          (* exactly the requested lanes that have enough observers, ascending *)
          list_eqb N.eqb (map fst (o_lanes o)) (sortN (map u_chain us)) &&
-         (* F_home+1 distinct configured observers vouch for every root handed back *)
+         (* F_home+1 distinct configured observers vouch for every root handed back, and that root is not the empty
+            (all-zero) root.  [The second conjunct was missing: C06_sig_threshold says r <> 0, and an output handing
+            back the empty root for a lane on which F_home+1 observers voted the empty root was accepted — witness
+            c06_ok_before_unsound in Proofs/JudgeSoundC06P.v.] *)
          forallb (fun u =>
            match alookup (u_chain u) (o_lanes o) with
-           | Some r => gte_f_plus_one (u_F u) (zlen (voters cfg u r (i_items i)))
+           | Some r => negb (N.eqb r 0) && gte_f_plus_one (u_F u) (zlen (voters cfg u r (i_items i)))
            | None => false
            end) us &&
          (* F_remote+1 signatures of distinct configured signers over that report, ascending by signer address *)
